@@ -167,8 +167,14 @@ func (c *scriptConn) waitIdle(d time.Duration) {
 	}
 }
 
-func (c *scriptConn) Write(p []byte) (int, error)        { return len(p), nil }
-func (c *scriptConn) Close() error                       { c.mu.Lock(); c.closed = true; c.cond.Broadcast(); c.mu.Unlock(); return nil }
+func (c *scriptConn) Write(p []byte) (int, error) { return len(p), nil }
+func (c *scriptConn) Close() error {
+	c.mu.Lock()
+	c.closed = true
+	c.cond.Broadcast()
+	c.mu.Unlock()
+	return nil
+}
 func (c *scriptConn) LocalAddr() net.Addr                { return fakeAddr("127.0.0.1:1") }
 func (c *scriptConn) RemoteAddr() net.Addr               { return fakeAddr("127.0.0.1:2") }
 func (c *scriptConn) SetDeadline(t time.Time) error      { return nil }
